@@ -5,7 +5,11 @@ prop("C20",
                 "contains_iff_enumerate, range_contains_size, walk_visits_exactly, walk_all, roundtrip_ip / _range / _cidr / "
                 "_pool, reject_changes_nothing (+ reject_reported, accept_configures), fipcheck_nowrap; _counter theorems "
                 "document the fixed defects D1 (walk32_diverges_counter) and D8 (fipcheck_wrap_counter, "
-                "accepted_wf_old_counter); fact_* theorems pin operators, widths, constants, json field table and the "
+                "accepted_wf_old_counter); editing an accepted pool (FloatingIPPool.InsertIP / tryMerge / RemoveIP, model "
+                "Galaxy.RangeEdit): accepted_canon, insert_exact, remove_exact (canonical form kept, membership changes by "
+                "exactly the one address), insert_refuses_iff, remove_refuses_iff, insert_remove_roundtrip, "
+                "edit_outside_subnet_refused, insert_noncanon_counter; a reload whose ConfigurePool fails: "
+                "store_failure_changes_nothing, store_failure_retried, store_ok_is_ensureConf; fact_* theorems pin operators, widths, constants, json field table and the "
                 "guards of UnmarshalJSON / MarshalJSON / ensureIPAMConf.  No _partial theorem.  The model is tied to the "
                 "code by factgen (proofs break when an operator / width / constant changes) and by a differential "
                 "correspondence + independent monitors on the real decoder, encoder, range functions, walk and reload.",
@@ -13,7 +17,10 @@ prop("C20",
                 "string escapes are encoding/json's and are covered by the correspondence (lowering written in the "
                 "harness, checked on every case), not by proof.  Text domain of the model is dotted-quad IPv4; IPv6 "
                 "literals which the real decoder accepts (v4-mapped forms, IPv6 node subnets) are checked by the "
-                "monitors only.  ensureIPAMConf is modelled without store failures of ConfigurePool (M3's business).",
+                "monitors only.  ensureIPAMConf is modelled with ConfigurePool as one step that succeeds or fails as a "
+                "whole (ensureConfStore; the harness injects a failing store list); what ConfigurePool does inside is M3's "
+                "business.  InsertIP's call tryMerge(i-1) is transcribed as a no-op (argument in Model/RangeEdit.lean, checked "
+                "by the correspondence on arbitrary, also unsorted, lists).",
      technique="Lean 4 theorems over an executable model + regenerated definitions (factgen nets: BitVec 32/64 code of "
                "IPRange.Size/Contains, SparseSubnet.Size, ParseIPRange order check, fipCheck adjacency incl. width, "
                "walkIPRanges loop, Minus, Less, separator) + differential correspondence against gxdrv_nets + monitors; "
